@@ -176,11 +176,15 @@ Definition proj_of (p : pk) (x : qvec) : qvec :=
   end.
 
 (* ---- Landweber ---- *)
-Record case_lw := { kl_nc : nat; kl_M : qmat; kl_rhs : qvec; kl_omega : Q; kl_proj : pk; kl_x : qvec; kl_n : nat;
+(* kl_sq: the operator is  MatrixOperator(M) * PowerOperator(2)  (nonlinear): A x = M (x.x),
+   adjoint of the derivative AT x:  y |-> 2 x . (M^T y) *)
+Record case_lw := { kl_nc : nat; kl_M : qmat; kl_sq : bool; kl_rhs : qvec; kl_omega : Q; kl_proj : pk; kl_x : qvec; kl_n : nat;
                     kl_tr : list qvec; kl_split : list qvec }.
 Definition check_lw (k : case_lw) : bool :=
-  let st := landweber_step (mop (kl_M k)) (fun _ => madj (kl_nc k) (kl_M k)) (proj_of (kl_proj k))
-                           (kl_rhs k) (kl_omega k) in
+  let A := if kl_sq k then (fun x => mop (kl_M k) (vmul x x)) else mop (kl_M k) in
+  let Dadj := if kl_sq k then (fun x y => vscal 2 (vmul x (madj (kl_nc k) (kl_M k) y)))
+              else (fun _ => madj (kl_nc k) (kl_M k)) in
+  let st := landweber_step A Dadj (proj_of (kl_proj k)) (kl_rhs k) (kl_omega k) in
   vsclose (kl_tr k) (trace (fun x => x) (kl_n k) st (kl_x k))
   && splits_ok (kl_split k) (iter (kl_n k) st (kl_x k)).
 
